@@ -249,6 +249,8 @@ def canaries(chk, prog):
 
 
 def run(chk, prog, tier):
+    from props.c13 import recomputed_rule
+    recomputed_rule(chk, prog)
     run_alias(chk, prog)
     run_repeatable(chk, prog)
     if chk.counts.get("public_callables", 0) < 200:
